@@ -88,7 +88,10 @@ def prop_canon(v):
     if isinstance(v, str):
         return "s:" + v
     if hasattr(v, "seconds") and hasattr(v, "second_fractions"):
-        return "t:" + struct.pack("<Qq", int(v.second_fractions), int(v.seconds)).hex()
+        # a timestamp property holds plain Python integers (datetime arithmetic such as as_datetime() needs them)
+        plain = type(v.seconds) is int and type(v.second_fractions) is int
+        return ("t:" if plain else "t(%s,%s):" % (type(v.seconds).__name__, type(v.second_fractions).__name__)) + \
+            struct.pack("<Qq", int(v.second_fractions), int(v.seconds)).hex()
     if isinstance(v, bool):
         return "b:%d" % int(v)
     if isinstance(v, np.datetime64):
